@@ -7,32 +7,49 @@ import itertools
 import os
 import shutil
 import tempfile
+import weakref
 
 from vt.model import c25_tplcache as M
 
 PID = "C25"
 LEVEL = "exploration"
 TECHNIQUE = "reference-model monitor (state-set tracking) over exhaustively enumerated operation histories"
-RULE = ("every history of length<=L (quick 4; thorough 6 for DictLoader, 5 for the others) over the "
+RULE = ("(1) every history of length<=L (quick 4; thorough 6 for DictLoader, 5 for the others) over the "
         "alphabet {get a|b|c, select [a,b]|[b,a], modify a|b (toggle between 2 source versions), "
         "delete a|b, add a|b, swap env.loader to a second loader of the same kind (auto_reload "
         "only)} whose last op is a get/select (a trailing mutation is unobservable) and that "
         "contain no mutation that does nothing (add of an existing / delete or modify of a deleted "
         "name: identical to the shorter history); length-6 histories only up to renaming a<->b; "
         "executed for "
-        "cache_size in {0,1,2,-1} x auto_reload in {on,off} x {DictLoader, FunctionLoader returning "
+        "cache_size in {0,1,2,-1} (and 3 for length>=5: a shorter history cannot fill 3 slots) x "
+        "auto_reload in {on,off} x {DictLoader, FunctionLoader returning "
         "str, FunctionLoader returning (src,None,uptodate), FileSystemLoader on a temp dir with "
-        "os.utime-forced unique mtimes}; per lookup the harness observes the names passed to "
+        "os.utime-forced unique mtimes that move UP with every source change, and (auto_reload on, "
+        "histories that write a file) FileSystemLoader with mtimes that move DOWN with every change "
+        "/ re-creation}; (2) per shard 32 (thorough 800) random histories of length 5..9 (6..12) over "
+        "the same alphabet on cache sizes {1,2,3} + alternately 0 / -1 (auto_reload off only for "
+        "DictLoader and FileSystemLoader) and additionally FileSystemLoader with "
+        "zigzag mtimes (alternately above/below the initial one). Per lookup the harness observes the names passed to "
         "loader.get_source (instance wrapper), returned template identity, render text / "
-        "TemplateNotFound and len(env.cache); accepted iff some state of the reference model "
-        "predicts exactly that. distinct = distinct op sequences of length 2..5 (length-6 ones are "
-        "only counted, see histories_len6)")
+        "TemplateNotFound, and after the lookup len(env.cache) and the (loader, name) pairs in "
+        "env.cache.keys() (for a bounded cache also their order, documented as most recently used "
+        "first); accepted iff some state of the reference model "
+        "predicts exactly that (so: no stale serve, no needless reload of a valid cached template, "
+        "eviction only when room is needed and only of the least recently used entry, no lost or "
+        "duplicate entry). distinct = distinct op sequences of length 2..5 (length-6 ones are "
+        "only counted, see histories_len6) + distinct random long histories")
 LEVEL_TEXT = ("held on every enumerated (history, cache size, auto_reload, loader) execution up to the "
               "stated length bound; nothing is claimed for longer histories, more than 3 names or "
               "concurrent use")
 ASSUMPTIONS = [
     "single-threaded use of the environment; at most 3 template names, 2 source versions per name, 2 loaders",
-    "FileSystemLoader change detection is exercised only through distinct whole-second mtimes set with os.utime",
+    "FileSystemLoader change detection is exercised only through distinct whole-second mtimes set with "
+    "os.utime (increasing, decreasing and alternating around the initial mtime); a rewrite that keeps "
+    "the very same mtime is not generated (the loader cannot see it)",
+    "cache content is read through env.cache (len, keys()); keys are taken to be tuples holding the "
+    "template name and the loader or a weak reference to it -- if that layout changes the content "
+    "checks stop (counter cache_keys_unreadable) and the floor on cache_content_checks turns the run "
+    "INCONCLUSIVE",
     "where the documentation is silent (same text rewritten; stale entry after a failed reload) either behaviour is accepted",
     "swapping env.loader is only enumerated with auto_reload on (the documentation does not say what a "
     "non-reloading environment does after its loader attribute is replaced)",
@@ -44,7 +61,10 @@ FLOORS = {
               "counters": {"lookups": 90000, "loader_calls": 80000, "served_from_cache": 16000,
                            "reload_of_cached": 750, "notfound": 5000, "evicting_loads": 9500,
                            "exec_dict": 9000, "exec_func": 9000, "exec_funcup": 9000,
-                           "exec_fs": 9000}},
+                           "exec_fs": 9000, "exec_fsdn": 3000, "exec_fszz": 400, "exec_size3": 900,
+                           "long_histories": 128, "cache_len_checks": 90000,
+                           "cache_content_checks": 90000, "cache_order_checks": 60000,
+                           "reload_in_full_cache": 270, "fs_reload_mtime_backwards": 300}},
     "thorough": {"evaluations": 650000, "distinct": 12000,
                  "counters": {"lookups": 1700000, "loader_calls": 1400000,
                               "served_from_cache": 280000, "reload_of_cached": 13000,
@@ -59,7 +79,25 @@ MUT_OPS = ("ma", "mb", "da", "db", "na", "nb", "w")
 OPS = GET_OPS + MUT_OPS
 KINDS = ("dict", "func", "funcup", "fs")
 SIZES = (0, 1, 2, -1)
+SIZES_LONG = (0, 1, 2, 3, -1)        # histories of length >= 5 can fill a 3-slot cache
+FS_KINDS = {"fs": "up", "fsdn": "down", "fszz": "zigzag"}
+LONG_KINDS = ("dict", "func", "funcup", "fs", "fsdn", "fszz")
 MT_BASE = 1_000_000_000
+
+
+def mtime_of(mode, stamp):
+    """Forced modification time of the stamp-th source change (stamp 0 = initial
+    file).  up: every change is newer than all before; down: every change is
+    OLDER than all before (rollback, cp -p, archive extraction, re-creation with
+    an old timestamp); zigzag: alternately above and below the initial time.
+    Always unique per stamp, whole seconds."""
+    if mode == "up":
+        off = stamp
+    elif mode == "down":
+        off = -stamp
+    else:
+        off = stamp if stamp % 2 else -stamp
+    return MT_BASE + 10 * off
 
 
 def text_of(lid, name, ver):
@@ -82,6 +120,7 @@ class Kit:
         for d in self.dirs:
             os.mkdir(d)
         self.disk = [dict(), dict()]  # what is on disk: name -> (text, stamp) | absent
+        self.mode = "up"
 
     def put(self, lid, name, val):
         p = os.path.join(self.dirs[lid], name)
@@ -92,11 +131,12 @@ class Kit:
             return
         with open(p, "w", encoding="utf-8") as f:
             f.write(val[0])
-        t = MT_BASE + 10 * val[1]
+        t = mtime_of(self.mode, val[1])
         os.utime(p, (t, t))
         self.disk[lid][name] = val
 
-    def reset(self):
+    def reset(self, mode="up"):
+        self.mode = mode        # stamp 0 has the same mtime in every mode
         for lid in (0, 1):
             for n in NAMES:
                 want = (text_of(lid, n, 0), 0)
@@ -124,7 +164,7 @@ def make_loader(kind, lid, world, kit, calls):
                 return None
             return cur[0], None, (lambda: world.get(name) == cur)
         ld = FunctionLoader(load)
-    elif kind == "fs":
+    elif kind in FS_KINDS:
         ld = FileSystemLoader(kit.dirs[lid])
     else:
         raise AssertionError(kind)
@@ -142,6 +182,45 @@ def sizeclass(size):
     return "n" if size > 0 else str(size)
 
 
+def kindtag(kind):
+    return f"fs:mtime={FS_KINDS[kind]}" if kind in FS_KINDS else kind
+
+
+def observe_cache(env, loaders):
+    """(len, [(loader id, name), ...] in the order keys() gives | None) or None
+    when the environment has no cache object.  The key layout is discovered
+    generically: a tuple holding the template name (a str) and the loader or a
+    weak reference to it."""
+    cache = getattr(env, "cache", None)
+    if cache is None:
+        return None
+    try:
+        n = len(cache)
+    except TypeError:
+        return None
+    try:
+        raw = list(cache.keys())
+    except Exception:  # noqa: BLE001
+        return n, None
+    out = []
+    for k in raw:
+        if not isinstance(k, tuple):
+            return n, None
+        name = next((x for x in k if isinstance(x, str)), None)
+        lid = None
+        for x in k:
+            if isinstance(x, str):
+                continue
+            tgt = x() if isinstance(x, weakref.ref) else x
+            for i, ld in enumerate(loaders):
+                if tgt is ld:
+                    lid = i
+        if name is None or lid is None:
+            return n, None
+        out.append((lid, name))
+    return n, out
+
+
 def run_history(kit, kind, size, ar, hist, stats=None):
     """Execute one history.  Returns None or (key, what)."""
     from jinja2 import Environment, TemplateNotFound
@@ -149,8 +228,9 @@ def run_history(kit, kind, size, ar, hist, stats=None):
     calls = []
     worlds = [{n: (text_of(lid, n, 0), 0) for n in NAMES} for lid in (0, 1)]
     vers = [{n: 0 for n in NAMES} for _ in (0, 1)]
-    if kind == "fs":
-        kit.reset()
+    fs = kind in FS_KINDS
+    if fs:
+        kit.reset(FS_KINDS[kind])
     loaders, mappings = [], []
     for lid in (0, 1):
         ld, mp = make_loader(kind, lid, worlds[lid], kit, calls)
@@ -163,7 +243,7 @@ def run_history(kit, kind, size, ar, hist, stats=None):
     keep = []      # keeps templates alive so ids stay unique
     active = 0
     stamp = 0
-    tag = f"{kind}:auto_reload={'on' if ar else 'off'}:size={sizeclass(size)}"
+    tag = f"{kindtag(kind)}:auto_reload={'on' if ar else 'off'}:size={sizeclass(size)}"
 
     def setsrc(lid, name, val):
         w = worlds[lid]
@@ -176,7 +256,7 @@ def run_history(kit, kind, size, ar, hist, stats=None):
                 mappings[lid].pop(name, None)
             else:
                 mappings[lid][name] = val[0]
-        elif kind == "fs":
+        elif fs:
             kit.put(lid, name, val)
 
     for step, op in enumerate(hist):
@@ -243,18 +323,73 @@ def run_history(kit, kind, size, ar, hist, stats=None):
                 stats["evicting_loads"] += 1
             if len(nxt) > 1:
                 stats["ambiguous_model_states"] += 1
+            if calls and res != M.NF and size >= 2:
+                k = (active, calls[-1])
+                if any(len(s) == size and M._find(s, k) is not None for s in states):
+                    stats["reload_in_full_cache"] += 1
+            if fs and calls and res != M.NF:
+                cur = worlds[active].get(calls[-1])
+                for s in states:
+                    e = M._find(s, (active, calls[-1]))
+                    if e is not None and cur is not None and \
+                            mtime_of(FS_KINDS[kind], cur[1]) < mtime_of(FS_KINDS[kind], e[2]):
+                        stats["fs_reload_mtime_backwards"] += 1
+                        break
         if not nxt:
             return classify(obs, pred, tag, step, op, hist, worlds[active], names)
         states = nxt
-        cache = getattr(env, "cache", None)
-        if cache is not None and size >= 0:
-            try:
-                n = len(cache)
-            except TypeError:
-                n = None
-            if n is not None and n > size:
-                return (f"capacity-exceeded:{tag}",
-                        f"step {step} {op}: len(env.cache)={n} > cache_size={size}")
+        if size == 0:
+            continue
+        # what the cache holds now: number of templates, and which (loader, name)
+        # pairs -- must be what some surviving model state holds
+        oc = observe_cache(env, loaders)
+        if oc is None:
+            if stats is not None:
+                stats["cache_unobservable"] += 1
+            continue
+        n, keys = oc
+        if size > 0 and n > size:
+            return (f"capacity-exceeded:{tag}",
+                    f"history {list(hist)} step {step} {op}: len(env.cache)={n} > cache_size={size}")
+        model_lens = sorted({len(s) for s in states})
+        nxt = {s for s in states if len(s) == n}
+        if not nxt:
+            return (f"cache-length:{'fewer' if n < model_lens[0] else 'more'}-than-the-loaded-templates:{tag}",
+                    f"history {list(hist)} step {step} {op}: len(env.cache)={n}, keys {keys}; the "
+                    f"templates loaded and not yet evicted number {model_lens}: "
+                    f"{[[k for k, _ in s] for s in sorted(states)][:3]}")
+        states = nxt
+        if stats is not None:
+            stats["cache_len_checks"] += 1
+        if keys is None:
+            if stats is not None:
+                stats["cache_keys_unreadable"] += 1
+            continue
+        if len(keys) != n or len(set(keys)) != len(keys):
+            return (f"cache-keys:duplicate-or-miscounted:{tag}",
+                    f"history {list(hist)} step {step} {op}: env.cache.keys() gives {keys} but "
+                    f"len(env.cache)={n}")
+        nxt = {s for s in states if sorted(k for k, _ in s) == sorted(keys)}
+        if not nxt:
+            return (f"cache-content:{tag}",
+                    f"history {list(hist)} step {step} {op}: env.cache holds {sorted(keys)}; the model "
+                    f"(LRU eviction, only when room is needed) holds "
+                    f"{[sorted(k for k, _ in s) for s in sorted(states)][:3]}")
+        states = nxt
+        if stats is not None:
+            stats["cache_content_checks"] += 1
+        if size > 0:
+            # LRUCache.keys() is documented as "ordered by most recent usage"
+            mru_first = list(keys)
+            nxt = {s for s in states if [k for k, _ in reversed(s)] == mru_first}
+            if not nxt:
+                return (f"cache-order:{tag}",
+                        f"history {list(hist)} step {step} {op}: env.cache.keys() (most recently used "
+                        f"first) = {mru_first}; model recency order "
+                        f"{[[k for k, _ in reversed(s)] for s in sorted(states)][:3]}")
+            states = nxt
+            if stats is not None:
+                stats["cache_order_checks"] += 1
     return None
 
 
@@ -319,18 +454,92 @@ def histories(maxlen):
                 yield idx, prefix + (last,)
 
 
+STAT_KEYS = ("lookups", "loader_calls", "notfound", "served_from_cache", "reload_of_cached",
+             "evicting_loads", "ambiguous_model_states", "cache_unobservable", "cache_len_checks",
+             "cache_keys_unreadable", "cache_content_checks", "cache_order_checks",
+             "reload_in_full_cache", "fs_reload_mtime_backwards")
+
+
+def random_history(rng, length):
+    """A history of the given length without do-nothing mutations, ending in a
+    lookup; mutations and lookups of the same name are favoured so that reloads
+    of cached templates in a full cache actually happen."""
+    while True:
+        hist = []
+        for i in range(length):
+            if i == length - 1 or rng.random() < 0.6:
+                hist.append(rng.choice(GET_OPS[:3]) if rng.random() < 0.75 else rng.choice(GET_OPS))
+            else:
+                hist.append(rng.choice(MUT_OPS[:2]) if rng.random() < 0.5 else rng.choice(MUT_OPS))
+        hist = tuple(hist)
+        if not has_noop(hist):
+            return hist
+
+
+def exec_all(ctx, kit, stats, hist, kinds, sizes, part, off_kinds=None):
+    """Run one history for every (loader kind, cache size, auto_reload);
+    auto_reload off only for off_kinds when given."""
+    has_swap = "w" in hist
+    changes = any(o[0] in "mn" for o in hist)
+    n = 0
+    for kind in kinds:
+        if kind in FS_KINDS and kind != "fs" and not changes:
+            continue        # no source is (re)written: the mtime direction cannot matter
+        for size in sizes:
+            for ar in (True, False):
+                if has_swap and not ar:
+                    continue
+                if not ar and kind in FS_KINDS and kind != "fs":
+                    continue    # nothing is ever reloaded: identical to the "fs" execution
+                if not ar and off_kinds is not None and kind not in off_kinds:
+                    continue
+                bad = run_history(kit, kind, size, ar, hist, stats)
+                n += 1
+                ctx.ev()
+                ctx.count("exec_" + kind)
+                if size == 3:
+                    ctx.count("exec_size3")
+                if bad:
+                    ctx.violation(bad[0], bad[1],
+                                  {"kind": kind, "size": size, "auto_reload": ar,
+                                   "hist": list(hist), "part": part})
+    return n
+
+
+def part_long(ctx, kit, stats, quick):
+    """Random longer histories (beyond the exhaustive length bound) on every
+    loader kind incl. the three mtime directions and on cache sizes 0,1,2,3,-1."""
+    rng = ctx.rng("long")
+    n = 32 if quick else 800
+    lo, hi = (5, 9) if quick else (6, 12)
+    for i in range(n):
+        hist = random_history(rng, rng.randint(lo, hi))
+        # bounded sizes always; 0 and unbounded alternately (the exhaustive part has them)
+        exec_all(ctx, kit, stats, hist, LONG_KINDS, (1, 2, 3, (0, -1)[i % 2]), "long",
+                 off_kinds=("dict", "fs"))
+        ctx.count("long_histories")
+        ctx.dist(hist)
+        if i < 2 and ctx.shard == 0:
+            ctx.sample({"kind": "fsdn", "size": 3, "auto_reload": True, "hist": list(hist)})
+        if i >= 10 and ctx.out_of_time():
+            ctx.count("long_timeboxed")
+            break
+
+
 def run(ctx):
     quick = ctx.tier == "quick"
     kit = Kit()
-    stats = {k: 0 for k in ("lookups", "loader_calls", "notfound", "served_from_cache",
-                            "reload_of_cached", "evicting_loads", "ambiguous_model_states")}
+    stats = {k: 0 for k in STAT_KEYS}
     try:
+        part_long(ctx, kit, stats, quick)
+        xk = KINDS + ("fsdn",)
         if quick:
-            plan = [(KINDS, 1, 4)]
+            plan = [(xk, 1, 4)]
         else:
-            plan = [(KINDS, 1, 5), (("dict",), 6, 6)]
+            plan = [(xk, 1, 5), (("dict",), 6, 6)]
         complete = True
         nexec = 0
+        nhist = 0
         for kinds, lo, hi in plan:
             if not complete:
                 break
@@ -341,27 +550,16 @@ def run(ctx):
                     continue
                 if len(hist) >= 6 and tuple(MIRROR[o] for o in hist) < hist:
                     continue        # a<->b renaming of an enumerated history
-                has_swap = "w" in hist
-                for kind in kinds:
-                    for size in SIZES:
-                        for ar in (True, False):
-                            if has_swap and not ar:
-                                continue
-                            bad = run_history(kit, kind, size, ar, hist, stats)
-                            nexec += 1
-                            ctx.ev()
-                            ctx.count("exec_" + kind)
-                            if bad:
-                                ctx.violation(bad[0], bad[1],
-                                              {"kind": kind, "size": size, "auto_reload": ar,
-                                               "hist": list(hist)})
+                nexec += exec_all(ctx, kit, stats, hist, kinds,
+                                  SIZES_LONG if len(hist) >= 5 else SIZES, "exhaustive")
                 if 2 <= len(hist) <= 5:
                     ctx.dist(hist)
                 elif len(hist) == 6:
                     ctx.count("histories_len6")
                 if idx % 40 == 0 and ctx.shard == 0:
                     ctx.sample({"kind": "dict", "size": 1, "auto_reload": True, "hist": list(hist)})
-                if nexec % 512 < 32 and ctx.out_of_time():
+                nhist += 1
+                if nhist % 12 == 0 and ctx.out_of_time():
                     complete = False
                     ctx.count("enumeration_cut")
                     break
